@@ -271,6 +271,10 @@ func (tx DynamicFeeTx) Cost() *big.Int {
 
 // EffectiveGasPrice returns the effective gas price
 func (tx *DynamicFeeTx) EffectiveGasPrice(baseFee *big.Int) *big.Int {
+	if baseFee == nil {
+		// no base fee (London not active): same as go-ethereum's Transaction.AsMessage
+		return tx.GetGasFeeCap()
+	}
 	return EffectiveGasPrice(baseFee, tx.GasFeeCap.BigInt(), tx.GasTipCap.BigInt())
 }
 
